@@ -33,7 +33,7 @@ func init() {
 	fw.Register(&fw.Property{
 		ID:    "C03",
 		Level: "exploration",
-		Rule: "ENUMERATED matrix: write list {creator default, explicit [creator], explicit [creator, replica], empty->default, wildcard (control)} x access controller {ipfs via Create/Open; simple and orbitdb via their public constructors on a store built with the public store constructor} x author {honest non-writer, copied writer id, copied identity block with victim key, copied identity block with own key, copied id and key with foreign identity signatures} x route {local write call, local write after an Open during which the k-th needed block (k=1..3) did not arrive before the deadline, local write on a database opened with an options value previously used to open another database, announced head, exchange on connect, manual Sync, ancestor via next of a colluding writer's head, ancestor via refs} x store type, with the forged entry at a PRNG position among valid heads; thorough repeats with 5 seeds of surrounding history. Each cell: forged entry delivered to a replica holding honest entries, then an honest marker write through the same path must take effect, then the oracle, and again after the replica was closed, reopened and loaded from its cached heads. " +
+		Rule: "ENUMERATED matrix: write list {creator default, explicit [creator], explicit [creator, replica], empty->default, wildcard (control)} x access controller {ipfs via Create/Open; simple and orbitdb via their public constructors on a store built with the public store constructor} x author {honest non-writer, copied writer id, copied identity block with victim key, copied identity block with own key, copied id and key with foreign identity signatures} x route {local write call, local write after an Open during which the k-th needed block (k=1..3) did not arrive before the deadline, local write on a database opened with an options value previously used to open another database, announced head, exchange on connect, manual Sync, ancestor via next of a colluding writer's head, ancestor via refs} x store type, with the forged entry at a PRNG position among valid heads; thorough repeats with 5 seeds of surrounding history. Each cell: forged entry delivered to a replica holding honest entries, then an honest marker write through the same path must take effect, then the oracle, and again after the replica was closed, reopened and loaded from its cached heads. Two further families: databases whose write-list block was published by hand ([], another id, [*]) and opened by a peer that is not in it; ONE instance opening three databases governed by manifest-less simple controllers with the write lists [P], [Q], [*] in three orders, P writing to the [Q] database. " +
 			"distinct = cell (list, controller, author kind, route, store type, position); non-trivial = the forged entry was really delivered on the route (wire / call observed) and the marker took effect",
 		Assumptions: []string{"ground truth about the true author comes from construction (the harness knows which key signed)", "hashing, CBOR and signature primitives of go-ipfs-log are trusted base", "revocation is not part of the property"},
 		Cases:       c03Cases,
